@@ -145,6 +145,24 @@ def check(ctx, identity, payload, meta, params):
         ctx.case(payload, len(base) >= 3)
 
 
+def broken_case(ctx, identity, payload):
+    """A payload that does not decode (truncated): the option must not change HOW it fails."""
+    from pyrtcm import RTCMMessage
+
+    outs = {}
+    for opt in OPTS:
+        try:
+            RTCMMessage(payload=payload, labelmsm=opt)
+            outs[opt] = "ok"
+        except Exception as e:
+            outs[opt] = type(e).__name__
+    ctx.hit("undecodable_payloads_compared")
+    if len(set(outs.values())) > 1:
+        ctx.violation("option-changes-failure", f"{identity}: a truncated payload ({len(payload)} bytes) ends differently "
+                      f"under the label options: { {repr(k): v for k, v in outs.items()} }",
+                      {"identity": identity, "payload": payload.hex(), "broken": True})
+
+
 def run(ctx):
     rng = ctx.rng
     ctx.labelmap = {}
@@ -168,6 +186,8 @@ def run(ctx):
                 break
             check(ctx, identity, enc.payload, enc.meta,
                   {"identity": identity, "seedtag": seedtag, "j": j, "mstrat": ms, "payload": enc.payload.hex()})
+            if j % 10 == 0 and len(enc.payload) > 4:
+                broken_case(ctx, identity, enc.payload[: r2.randint(3, len(enc.payload) - 1)])
     ctx.sample({"options": [0, 1, 2, True], "label_pairs_seen": len(ctx.labelmap),
                 "example": [[list(map(str, k)), v] for k, v in list(ctx.labelmap.items())[:6]]})
 
@@ -175,6 +195,9 @@ def run(ctx):
 def replay(ctx, p):
     ctx.labelmap = {}
     payload = bytes.fromhex(p["payload"])
+    if p.get("broken"):
+        broken_case(ctx, p["identity"], payload)
+        return
     try:
         meta = refmodel.decode(p["identity"], payload).meta
     except Exception:
